@@ -339,4 +339,47 @@ def serialize (d : Dom) (x : Id) : Option Tree := serN (d.next + 1) d x
 /-- the serialised children of `x` (what `innerHTML` shows) -/
 def serializeKids (d : Dom) (x : Id) : Option (List Tree) := serListN (d.next + 1) d (d.kidsOf x)
 
+
+/-! ## normal form used when two renders are compared (C03 oracle)
+
+Attributes are a map (sorted by name), `class` is a set of tokens, `style` a map of declarations;
+an empty `class` / `style` attribute is identified with an absent one. -/
+
+def insSorted (a : String × String) : List (String × String) → List (String × String)
+  | [] => [a]
+  | b :: bs => if a.1 < b.1 || (a.1 == b.1 && a.2 < b.2) then a :: b :: bs else b :: insSorted a bs
+
+def sortPairs (l : List (String × String)) : List (String × String) := l.foldr insSorted []
+
+def normAttr (kv : String × String) : String × String :=
+  if kv.1 == "class" then
+    (kv.1, " ".intercalate ((sortPairs ((classTokens kv.2).map fun t => (t, ""))).map (·.1)))
+  else if kv.1 == "style" then (kv.1, styleText (sortPairs (styleDecls kv.2)))
+  else kv
+
+def normAttrs (attrs : List (String × String)) : List (String × String) :=
+  sortPairs ((attrs.map normAttr).filter fun kv =>
+    !((kv.1 == "class" || kv.1 == "style") && kv.2.isEmpty))
+
+mutual
+def Tree.norm : Tree → Tree
+  | .elem tag attrs kids => .elem tag (normAttrs attrs) (Tree.normList kids)
+  | t => t
+def Tree.normList : List Tree → List Tree
+  | [] => []
+  | t :: ts => t.norm :: Tree.normList ts
+end
+
+mutual
+def Tree.beq : Tree → Tree → Bool
+  | .elem t1 a1 k1, .elem t2 a2 k2 => t1 == t2 && a1 == a2 && Tree.beqList k1 k2
+  | .text a, .text b => a == b
+  | .comment a, .comment b => a == b
+  | _, _ => false
+def Tree.beqList : List Tree → List Tree → Bool
+  | [], [] => true
+  | a :: as, b :: bs => Tree.beq a b && Tree.beqList as bs
+  | _, _ => false
+end
+
 end Leptos.Dom
